@@ -40,6 +40,22 @@ pub fn nonce_generator_cases(s: &mut Session, tier: &str, rng: &mut Rng) {
         ns.push(rng.below(if tier == "thorough" { 3_000_000 } else { 300_000 }));
     }
     let iv = rng.bytes(16);
+        // the counter at every carry boundary of its 96 bits (reached through the verification hook)
+    for k in (1..=12usize).chain(1..=12) {
+        {
+            let mut state = vec![0xffu8; k];
+            state.extend(rng.bytes(12 - k));
+            if k < 12 && state[k] == 0xff {
+                state[k] = 0x7f;
+            }
+            let r = s.run(&format!("nonce.inc.at {}", hex(&state)));
+            let v = state.iter().rev().fold(0u128, |a, b| (a << 8) | *b as u128).wrapping_add(1) & ((1u128 << 96) - 1);
+            let want: Vec<u8> = (0..12).map(|i| (v >> (8 * i)) as u8).collect();
+            if r != hex(&want) {
+                s.oracle_fail("nonce:increasing", &format!("after {} the increasing generator hands out {} (a carry out of byte {} is lost or misplaced)", hex(&state), r, k - 1));
+            }
+        }
+    }
     for n in ns {
         let r = s.run(&format!("nonce.cnt {} {}", hex(&iv), n));
         let mut want = ((n % 65536) as u16).to_be_bytes().to_vec();
